@@ -686,3 +686,10 @@ M("c20-switch-key-rewritten", "C20", "C20.LOAD", (PLUG, "        attr = getattr(
                                                   "        attr = getattr(self.config, f'plugin_{self.name}'.upper().replace('-', '_'), 'True')\n"))
 R("c20-switch-key-concatenated", "C20", (PLUG, "        attr = getattr(self.config, f'plugin_{self.name}'.upper(), 'True')\n",
                                           "        attr = getattr(self.config, ('plugin_' + self.name).upper(), 'True')\n"))
+R("c17-plugin-enumeration-as-generator-expression", "C17", (CSVC, _PG_OLD, "        return (plugin for plugin in self._plugins if isinstance(plugin, plugin_type))\n"))
+M("c17-plugin-enumeration-dedup-by-name", "C17", "C17.FAN", (CSVC, _PG_OLD, """        seen = set()
+        for plugin in self._plugins:
+            if isinstance(plugin, plugin_type) and plugin.name not in seen:
+                seen.add(plugin.name)
+                yield plugin
+"""))
